@@ -1,5 +1,5 @@
 \* generated by mkcfg.sh
-SPECIFICATION GenSpec
+SPECIFICATION Spec
 CONSTANTS
   Aux <- MCAux
   NodeKinds <- MCNodeKinds
@@ -8,7 +8,7 @@ CONSTANTS
   N = 2
   MaxCalls = 1
   SrcEnc = "aes"
-  DstEnc = "aes"
+  DstEnc = "none"
   EmptyArrayNil = FALSE
   NilEntryPanics = FALSE
   KeyByAsked = FALSE
@@ -18,17 +18,17 @@ CONSTANTS
   StepBound = 400
   ScalarAtoms = {"i:7"}
   MaxSlots = 1
-  WithDict = TRUE
+  WithDict = FALSE
   WithNest = FALSE
   Nest2 = FALSE
   WithStream = TRUE
-  StreamLayouts = {"none","direct","indirect","array","chain"}
+  StreamLayouts = {"none"}
   WithDangling = FALSE
   WithNullObj = FALSE
   WithScalarObj = TRUE
-  CallOps = {"ref","obj","arr1"}
+  CallOps = {"ref"}
   WithTwin = FALSE
-  CFIndirect = TRUE
+  CFIndirect = FALSE
   PlainIdentity = FALSE
   KeyByNumber = FALSE
   CryptProbeDirectOnly = FALSE
@@ -36,7 +36,7 @@ CONSTANTS
   InlinedAsIs = FALSE
   MaxChain = 10
   BoundBeforeRead = FALSE
-  TargetOpen = FALSE
-  SharedBuffer = FALSE
-  Bodies = {"b1"}
-INVARIANTS Once Repeat Terminates NoPanic ErrorsOnlyUnsupported Shape Sharing IsoInv
+  TargetOpen = TRUE
+  SharedBuffer = TRUE
+  Bodies = {"b1","b2"}
+INVARIANTS Shape
